@@ -6,8 +6,8 @@ import (
 )
 
 var (
-	c25BraceAfterName = regexp.MustCompile(`\$[A-Za-z_][A-Za-z0-9_]*(\\\n)*\{a,b\}`)
-	c25EscParamBrace  = regexp.MustCompile(`\\\$\{[^{}]*\}\\\{a,b\}`)
+	c25BraceAfterName = regexp.MustCompile(`\$[A-Za-z_]([A-Za-z0-9_]|\\\n)*\{a,b\}`)
+	c25EscParamBrace  = regexp.MustCompile(`(?s)\\\$\{[^{}]*\}.*\\\{a,b\}`)
 	c25Count          = regexp.MustCompile(`^0:([0-9]+):`)
 )
 
